@@ -357,9 +357,9 @@ class Family:
             # behaviours one command longer (begin / statement / commit ...), fault-free or with a fault in the command that
             # ends the transaction (COMMIT / ROLLBACK / SET autocommit).  In the fault-free ones the expected state is fully
             # determined by the property texts and every difference is a verdict.
-            nf3 = self.generate(3, END_FOPS, sample=lambda c: 0.5 if any(x["f"]["op"] != "none" for x in c["cmds"]) else 0.3)
+            nf3 = self.generate(3, END_FOPS, sample=lambda c: 0.4 if any(x["f"]["op"] != "none" for x in c["cmds"]) else 0.2)
             ctx.sample(nf3[len(nf3) // 2])
-            sims = self.generate(5, ALL_FOPS, sim=120, ns=2)
+            sims = self.generate(5, ALL_FOPS, sim=80, ns=2)
             ctx.sample(sims[0])
             self.replay(cases + known_cases + nf3 + sims, "bfs2+bfs3endfault+sim5", 800)
             self.validate_clean(700)
